@@ -56,7 +56,7 @@ class Step:
 
             def in_place(e):
                 t = e.target
-                return any(t.locals[i + 1]["ty"].startswith("&mut ") and t.locals[i + 1]["ty"].endswith(("margined_engine::Position", "state::SentFunds", "state::Config", "cosmwasm_std::Uint128"))
+                return any(t.locals[i + 1]["ty"].startswith("&mut ") and t.locals[i + 1]["ty"].endswith(("margined_engine::Position", "state::SentFunds", "state::Config", "cosmwasm_std::Uint128", "margined_engine::RemainMarginResponse"))
                            for i in range(t.arg_count))
             try:
                 oks = splice(self.ix, oks, in_place, rounds=3)
